@@ -1,5 +1,5 @@
 import math
-from .types import Quantity, is_number, get_external_type_name, Array
+from .types import Quantity, is_number, get_external_type_name, Array, Combinatoric
 from .functions import dispatch
 from .units import lookup_unit, QSPACE, InvalidPrefixError
 from .probability import ComparisonOp
@@ -74,7 +74,7 @@ def eval_based_on_mode(node, env, child_values):
     if mode == EvalModes.CONVERT_UNIT:
         return convert_quantity(child_values[0], node.value)
     if mode == EvalModes.ARRAY:
-        return Array(child_values)
+        return Array([resolve_lazy(v) for v in child_values])
     if mode == EvalModes.ARRAY_WITH_CONDITION:
         return eval_comprehension(node, env)
     if mode == EvalModes.KEYWORD_ARG:
@@ -92,7 +92,13 @@ def eval_funcall(node, child_values):
                      in zip(node.children[num_pos_args:],
                             child_values[num_pos_args:])))
 
+def resolve_lazy(x):
+    # Lazy combinatorics only exist to speed up products and quotients;
+    # everywhere else they must behave as the number they stand for.
+    return x.resolve() if isinstance(x, Combinatoric) else x
+
 def make_quantity(magnitude, unit_signature):
+    magnitude = resolve_lazy(magnitude)
     if not is_number(magnitude):
         raise EvalError(f"Tried to add units on top of existing units. Only a magnitude can be tagged with units.")
     qv, multiple, offset = compose_units(unit_signature)
@@ -184,7 +190,7 @@ def eval_comprehension(node, env):
             if result == 0:
                 success = False
         if success:
-            output.append(eval_node(body_node, env))
+            output.append(resolve_lazy(eval_node(body_node, env)))
         subarray_index += 1
     return output
 
